@@ -410,6 +410,25 @@ pub fn process(
             };
             opcode |= r.number() << 4;
 
+            // ld/st have no displacement form, ldd/std have no other
+            let displaced = if let IndexOps::PostIncrementE(_, _) = &i {
+                true
+            } else {
+                false
+            };
+            match op {
+                Operation::Ld | Operation::St => {
+                    if displaced {
+                        bail!("{:?} has no displacement form (that is ldd/std)", op);
+                    }
+                }
+                _ => {
+                    if !displaced {
+                        bail!("{:?} takes Y+q or Z+q", op);
+                    }
+                }
+            }
+
             let index_reg = match &i {
                 IndexOps::None(r16)
                 | IndexOps::PostIncrement(r16)
